@@ -370,13 +370,16 @@ def subdivide_loop(vertices, faces, iterations=None):
             # boundary vertices from boundary edges
             vrt_bound_mask = np.zeros(len(vertices), dtype=bool)
             vrt_bound_mask[np.unique(edges[unique][~edge_inter_mask])] = True
-            # one boundary vertex has two neighbor boundary vertices (set
-            # others as -1)
-            boundary_neighbors = neighbors[vrt_bound_mask]
-            boundary_neighbors[~vrt_bound_mask[neighbors[vrt_bound_mask]]] = -1
+            # a boundary vertex is only influenced by the two vertices it is
+            # connected to by boundary edges: an interior edge may also join
+            # two boundary vertices and that neighbor must not be counted
+            boundary_sum = np.zeros_like(vertices)
+            bound_edges = edges[unique][edge_bound_mask]
+            np.add.at(boundary_sum, bound_edges[:, 0], vertices[bound_edges[:, 1]])
+            np.add.at(boundary_sum, bound_edges[:, 1], vertices[bound_edges[:, 0]])
 
             even[vrt_bound_mask] = (
-                vertices_[boundary_neighbors].sum(axis=1) / 8.0
+                boundary_sum[vrt_bound_mask] / 8.0
                 + (3.0 / 4.0) * vertices[vrt_bound_mask]
             )
 
